@@ -3,6 +3,7 @@ package google
 import (
 	"archive/zip"
 	"bytes"
+	"encoding/base64"
 	"encoding/binary"
 	"encoding/hex"
 	"encoding/json"
@@ -285,7 +286,15 @@ func Parse(in []byte, version string) (*CRLSet, error) {
 	crlSet.Sequence = header.Sequence
 	crlSet.Version = version
 	crlSet.NumParents = header.NumParents
-	crlSet.BlockedSPKIs = header.BlockedSPKIs
+	// The header lists blocked SPKIs as base64 SHA-256 hashes, while IssuerLists keys and
+	// the issuerSPKIHash argument of Check are hex: store them as hex so Check can match.
+	crlSet.BlockedSPKIs = make([]string, 0, len(header.BlockedSPKIs))
+	for _, spki := range header.BlockedSPKIs {
+		if raw, err := base64.StdEncoding.DecodeString(spki); err == nil {
+			spki = hex.EncodeToString(raw)
+		}
+		crlSet.BlockedSPKIs = append(crlSet.BlockedSPKIs, spki)
+	}
 
 	for rest.Len() > 0 {
 		rawEntry := RawEntry{}
